@@ -179,7 +179,7 @@ def label_for(diag, labels, fnmap, text_lines, gen_name=None):
     if names:
         return names, site
     if site:
-        return [site['label']], site
+        return site['label'].split(','), site
     for s in primary or spans:
         nm = proof_fn_at(text_lines, s['line_start'])
         if nm:
@@ -239,7 +239,7 @@ def run_unit(unit, tier, seed):
             res['undecided'].append('vacuity guard: template lacks %s' % c)
     if res['undecided']:
         return res
-    all_obl = sorted(set(l for ls in labels.values() for l in ls) | set(f['label'] for f in fnmap))
+    all_obl = sorted(set(l for ls in labels.values() for l in ls) | set(x for f in fnmap for x in f['label'].split(',')))
     all_obl = [o for o in all_obl if not o.startswith('canary')]
     res['obligations'] = all_obl
     r = run_verus(out, seed=(seed if seed else None), rlimit=u.get('rlimit'))
